@@ -326,3 +326,14 @@ pub fn signature(detail: &str) -> String {
     }
     out
 }
+
+impl Verdict {
+    /// kind in the clear, payload (which may name a hash-order dependent pair) as non-canonical text
+    pub fn show(&self) -> String {
+        match self {
+            Verdict::Ok => "Ok".to_string(),
+            Verdict::Err { kind, info } => format!("Err({} {})", kind, dq(info.clone())),
+            Verdict::Panic(p) => format!("Panic({})", p),
+        }
+    }
+}
